@@ -134,6 +134,12 @@ func (srv *Server) handleChannel(ctx context.Context, c *ServerChannel) {
 		return
 	}
 
+	if c.State() != SessionStateEstablished {
+		// The session was failed during the handshake: there is nothing to serve
+		_ = c.Close()
+		return
+	}
+
 	established := srv.config.Established
 	if established != nil {
 		established(c.sessionID, c)
